@@ -111,6 +111,10 @@ def audit_checks(inst, exp, rr, report, dirmap_events=None):
             want_up = {path_of(i) for i in t["ins"]}
             if set((rec.get("Upstream") or {}).keys()) != want_up:
                 report("C10", "%s.audit.json: Upstream keys %r, expected %r" % (path, sorted((rec.get("Upstream") or {}).keys()), sorted(want_up)))
+            for ip, up in (rec.get("Upstream") or {}).items():
+                missing = {k: v for k, v in ((up or {}).get("Tags") or {}).items() if (rec.get("Tags") or {}).get(k) != v}
+                if missing:
+                    report("C10", "%s.audit.json: tags attached upstream (%s on %s) are not present on the downstream record %r" % (path, missing, ip, rec.get("Tags")))
             for i in t["ins"]:
                 ip = path_of(i)
                 if ip in audits and isinstance(audits[ip], dict) and ip in (rec.get("Upstream") or {}):
@@ -156,6 +160,25 @@ def check_C10(tier):
                 if t["ins"]:
                     for o in t["outs"]: chk.nontrivial.add("%s:%s" % (inst["name"], o))
         chk.sample(dict(kind="audit-files", instance=inst["name"], runs=len(rrs), outputs=len(exp["files"])), limit=8)
+    # two inputs carrying the SAME tag key with different values: whatever is finalized must still carry every upstream tag
+    tg2 = dict(name="TG2", max=2, bufsize=2,
+               procs=[src("s1", ["1"]), src("s2", ["2"]), dict(name="m1", kind="maptotags", tags={"batch": "one"}), dict(name="m2", kind="maptotags", tags={"batch": "two"}),
+                      cmd("j", ["l", "r"], ["out"])],
+               edges=[E("s1.out", "m1.in"), E("s2.out", "m2.in"), E("m1.out", "j.l"), E("m2.out", "j.r")])
+    rr = fc.real_runs(tg2, [dict(env={}, bufsize=2, timeout=30)])[0]
+    chk.evaluations += 1
+    exp2 = fc.expected(tg2)
+    def rep2(prop, msg): chk.violation("%s [instance TG2: conflicting tag values on two inputs]" % msg, dict(instance=tg2, rc=rr.rc))
+    audit_checks(tg2, exp2, rr, rep2)
+    chk.nontrivial.add("conflicting-tags:rc=%s" % rr.rc)
+    # the audit file of an output cannot be written (a directory squats on its path): nothing may be finalized without it
+    sq = FC(); sq["mkdirs"] = ["o/a.out_1.txt.audit.json"]
+    rr = fc.real_runs(sq, [dict(env={}, bufsize=2, timeout=30)])[0]
+    chk.evaluations += 1
+    if "o/a.out_1.txt" in rr.snapshot and rr.snapshot.get("o/a.out_1.txt.audit.json", {}).get("kind") != "file":
+        chk.violation("output o/a.out_1.txt was finalized although its audit file could not be written (rc=%s)" % rr.rc, dict(instance=sq, stderr=rr.stderr[-300:]))
+    else:
+        chk.nontrivial.add("audit-write-fault")
     # tags attached to files that travel as sub-stream members must reach the joined task's record
     inst = dict(name="TGJ", max=2, bufsize=4,
                 procs=[src("s", zoo.items(3)), dict(name="mt", kind="maptotags", tags={"batch": "b7"}), dict(name="ss", kind="substream"),
